@@ -511,3 +511,18 @@ theorem C07_every_request_answered_seq (caps : Caps) (s : Server) (_hr : ReachSe
   rcases pubVerdict_qos0 s i id topic alias h with e | e <;> rw [e] at g <;> cases g
 
 end Mochi.Broker
+
+#print axioms Mochi.Broker.C07_subscribe_answered
+#print axioms Mochi.Broker.C07_unsubscribe_answered
+#print axioms Mochi.Broker.C07_publish_every_exit
+#print axioms Mochi.Broker.C07_publish_qos1_answered_partial
+#print axioms Mochi.Broker.C07_publish_qos2_answered_partial
+#print axioms Mochi.Broker.C07_publish_qos0_no_ack
+#print axioms Mochi.Broker.C07_pubrel_answered_partial
+#print axioms Mochi.Broker.C07_pubrec_answered_partial
+#print axioms Mochi.Broker.C07_pingreq_answered
+#print axioms Mochi.Broker.C07_every_request_answered_seq
+#print axioms Mochi.Broker.C07_demo_answers
+#print axioms Mochi.Broker.C07_demo_reach
+#print axioms Mochi.Broker.C07_F07c_counterexample
+#print axioms Mochi.Broker.C07_F07d_counterexample
